@@ -15,7 +15,7 @@ SRC = '.test "a" {\n    lda #1\n    ldx #3\nl:\n    dex\n    bne l\n    nop\nfor
 SRC_LONG = ('.test "a" {\n    lda #20\n    jsr delay\n    nop\nforever:\n    jmp forever\ndelay:\n    sta $90\nd0:\n    ldx #0\nd1:\n    ldy #0\nd2:\n    dey\n'
             '    bne d2\n    dex\n    bne d1\n    dec $90\n    bne d0\n    rts\n}\n')
 STATES = ["no-debugger", "attached-idle", "launched-not-started", "stopped-at-breakpoint", "running", "paused", "debugger-disconnected-again",
-          "next-over-long-call", "continue-before-configuration-done", "step-out-that-never-returns"]
+          "next-over-long-call", "continue-before-configuration-done", "step-out-that-never-returns", "launch-during-big-edit"]
 ORDERS = ["shutdown-exit", "disconnect-then-shutdown", "shutdown-then-disconnect", "stdin-eof", "exit-without-shutdown-response-wait",
           "stdout-closed-then-stdin-eof", "debugger-attaches-between-shutdown-and-exit"]
 
@@ -63,7 +63,13 @@ def scenario(state, order, sched_seed, watchdog):
         if state != "no-debugger":
             dap = DapClient(srv.port)
             dap.request("initialize", {"adapterID": "mos", "linesStartAt1": True, "columnsStartAt1": True})
-            if state != "attached-idle":
+            if state == "launch-during-big-edit":
+                # the language server is busy analysing a big edit (it holds its context meanwhile) when the debugger asks to launch,
+                # and the shutdown order follows right behind the edit
+                srv.did_change(path, src + "nop\n" * 30000, 2)
+                dap.send("launch", {"workspace": d, "testRunner": {"testCaseName": "a"}})
+                time.sleep(0.02 * (sched_seed % 4))
+            elif state != "attached-idle":
                 r = dap.request("launch", {"workspace": d, "testRunner": {"testCaseName": "a"}})
                 if not r.get("success"):
                     return dict(obs, verdict="inconclusive", why="launch failed: %r" % (r,))
@@ -228,7 +234,7 @@ def main(tier, seed):
     return finish(
         "C20", tier, seed, acc, t0,
         rule="every combination of session state {no debugger, attached idle, launched but not started, stopped at a breakpoint, running "
-             "(endless loop), paused, debugger disconnected again, `continue` sent before configurationDone, a stepOut that never returns} x shutdown order {shutdown+exit, DAP disconnect then shutdown, shutdown "
+             "(endless loop), paused, debugger disconnected again, `continue` sent before configurationDone, a stepOut that never returns, a launch request arriving while a big edit is analysed} x shutdown order {shutdown+exit, DAP disconnect then shutdown, shutdown "
              "then disconnect, stdin closed without shutdown, shutdown+exit without waiting for the response, the client's stdout end closed while "
              "notifications are in flight followed by stdin EOF, a second debugger attaching between `shutdown` and `exit`}, plus the state `next` stepping over a long-running call, against a real `mos lsp` "
              "process with seeded H2 schedule perturbation; quick repeats every combination 8 times, thorough 120 times. The process must exit with "
